@@ -61,13 +61,12 @@ def recCanon (t : ExportedTx) : String :=
 /-- strip trailing zero bytes -/
 def stripZeros (b : Bytes) : Bytes := (b.reverse.dropWhile (· == 0)).reverse
 
-def fieldCanon (f : Field) : String :=
-  let d := if f.pad > 0 then stripZeros f.data else stripZeros f.data
-  Bytes.toHexTok d ++ "/" ++ toString f.len
+def fieldCanon (f : Bytes) : String :=
+  Bytes.toHexTok (stripZeros f) ++ "/" ++ toString f.length
 
 /-- the Go map keeps the LAST value stored under a key; rendering sorted by (key canon) -/
-def kvsCanon (kvs : List (Field × Field)) : String :=
-  let step (acc : List (String × String)) (kv : Field × Field) : List (String × String) :=
+def kvsCanon (kvs : List (Bytes × Bytes)) : String :=
+  let step (acc : List (String × String)) (kv : Bytes × Bytes) : List (String × String) :=
     let k := fieldCanon kv.1
     (acc.filter (fun p => p.1 ≠ k)) ++ [(k, fieldCanon kv.2)]
   let m := kvs.foldl step []
